@@ -8,7 +8,7 @@ from .runner import Plan
 class C09Plan(Plan):
     prop = "C09"
     oracles = ("replica",)
-    runs = {"quick": 160_000, "thorough": 4_000_000}
+    runs = {"quick": 80_000, "thorough": 4_000_000}
     rule = ("each run = seeded world (expression DAG with shared node objects, tripwire sub-expressions) + "
             "2-4 logical clients whose public-API operations are interleaved by the seeded scheduler; "
             "after every operation the same operation is performed on freshly built, never-used copies and "
@@ -25,6 +25,8 @@ class C09Plan(Plan):
 
     def gen(self, rng, tier, index):
         base = None
+        if index % (5000 if tier == "quick" else 2000) == 17:
+            return gen.gen_giveup(rng)          # natural rewrite-budget exhaustion (GIVEUP fault)
         if tier == "thorough" and index % 7 == 3:
             base = {"n_steps": (25, 60), "n_nodes": (10, 40)}
         return gen.gen_scenario(rng, base)
@@ -36,3 +38,90 @@ class C09Plan(Plan):
 
 
 PLANS = {"C09": C09Plan()}
+
+
+class C10Plan(Plan):
+    prop = "C10"
+    oracles = ("snapshot",)
+    runs = {"quick": 40_000, "thorough": 1_500_000}
+    rule = ("same simulator as C09 with a workload biased towards rewriting (simplification, as_expression on all "
+            "routes, early objects, new expressions built from library-returned ones).  Every pooled object "
+            "(user-built expression node, Point, derivative object, every expression the library returned) is "
+            "snapshotted at creation (structural spec, repr); after EVERY operation every pooled object must still "
+            "have that spec and repr, be == (both ways) and hash-equal to a freshly built twin, and evaluation-like "
+            "operations must give what a twin built from the creation-time snapshot gives.  A run is non-trivial when "
+            "it contains at least one rewriting operation (normalise / as_expression / early construction) on an "
+            "expression sharing nodes with another pooled object; distinct = distinct event-log digest")
+    assumptions = [
+        "memo fields (_value, _is_fully_reduced, _evaluation_failed, Partial._synthetic_partial) are not part of what an object denotes",
+        "the structural walker reads _inner/_left/_right/_inners/_parameter/name/value, _original_expression, _variable_name, Point._coordinates (feature-detected)",
+        "one API operation is one atomic step",
+    ]
+    BASE = {
+        "n_steps": (5, 18), "n_nodes": (5, 24), "early_prob": [0.5, 0.8], "kind_off_prob": 0.12,
+        "weights": {
+            "at": 5, "at_num": 1, "mk_partial": 4, "mk_derivative": 1.5, "mk_differential": 3,
+            "mk_located": 2, "pat": 4, "dat": 2, "comp": 3, "compat": 2, "lcomp": 1.5, "asx": 5,
+            "build": 4, "norm": 4, "eq": 1.5, "hash": 0.7, "repr": 0.7,
+        },
+    }
+
+    def gen(self, rng, tier, index):
+        return gen.gen_scenario(rng, self.BASE)
+
+    def nontrivial(self, run):
+        for st, out in run.records:
+            if out[0] == "skip":
+                continue
+            if st["k"] in ("norm", "asx") or (st["k"] == "mk" and st.get("early")):
+                return True
+        return False
+
+
+PLANS["C10"] = C10Plan()
+
+
+class C06Plan(Plan):
+    prop = "C06"
+    oracles = ()
+    runs = {"quick": 200_000, "thorough": 5_000_000}
+    rule = ("each run keeps long-lived derivative objects of every kind (Partial / Derivative / Differential early and "
+            "late, components, located differentials, variable as object or name) for 1-3 target expressions that share "
+            "node objects, and interleaves at / component / component_at / at(p).component / as_expression / == calls on "
+            "them under the seeded scheduler, with failed queries and neighbour evaluations in between, so the same object "
+            "is queried before and after its numeric->symbolic switch.  Post-hoc oracle over the history: all outcomes for "
+            "the same (expression, variable, point) are all DomainError or equal within 1e-6*max(1,|a|,|b|); all "
+            "as_expression() results for the same (expression, variable) are structurally equal; component/Partial and "
+            "Differential.at/LocatedDifferential objects are ==.  A run is non-trivial when at least one (expression, "
+            "variable, point) was answered by >= 2 different route records; distinct = distinct event-log digest")
+    assumptions = [
+        "inputs are kept in a moderate regime (|constants| <= 3, dyadic-biased grid, depth <= 5)",
+        "a disagreement is a candidate; it is discarded (and counted) when a route overflowed / produced inf or nan, or when "
+        "Monte-Carlo arithmetic (relative 1e-12 perturbation of every math_functions result, on replays only) shows the "
+        "disagreement is within reach of rounding noise; it is attributed to a listed known finding when a counterfactual "
+        "replay says so; otherwise it is a violation",
+        "points supply all variables of the target expressions (as the property states)",
+    ]
+
+    def gen(self, rng, tier, index):
+        if index % (50000 if tier == "quick" else 20000) == 17:
+            return gen.gen_giveup(rng)          # route agreement after the rewriter gave up (side coverage)
+        return gen.gen_c06(rng)
+
+    def posthoc(self, run):
+        from . import routes
+        return routes.posthoc(run)
+
+    def nontrivial(self, run):
+        c = getattr(run, "extra_stats", {}).get("c06", {})
+        return c.get("value_groups_multi_route", 0) > 0
+
+    def directed(self):
+        from . import directed
+        return directed.C06
+
+    def evidence_extra(self, agg):
+        return {"route_agreement": agg["stats"].get("c06", {})}
+
+
+PLANS["C06"] = C06Plan()
